@@ -186,3 +186,122 @@ Proof.
         -- rewrite Hr. cbn. apply orb_true_r.
     + contradiction.
 Qed.
+
+(** Conversely, the judge misses nothing: on a state whose per-entry fields
+    are trivial outside the entry array (as every dump is), passing all the
+    clauses implies the invariant. *)
+Definition scoped (s : st) : Prop :=
+  forall e, 2 * cap s <= e -> data s e = None /\ ref s e = 0.
+
+Lemma nodupb_NoDup l : nodupb l = true -> NoDup l.
+Proof.
+  induction l as [|x l IH]; cbn [nodupb]; intros H; [constructor|].
+  apply andb_prop in H. destruct H as [Hm Hn]. constructor; [|apply IH; exact Hn].
+  intros Hin. apply memb_true in Hin. rewrite Hin in Hm. discriminate.
+Qed.
+
+Theorem invb_complete s : scoped s -> invb s = true -> Inv s.
+Proof.
+  intros Hsc Hb. unfold invb, invb_clauses in Hb. cbn [forallb snd] in Hb.
+  repeat match type of Hb with
+         | (_ && _) = true => apply andb_prop in Hb; destruct Hb as [? Hb]
+         end.
+  repeat match goal with
+         | H : (_ && _) = true |- _ => apply andb_prop in H; destruct H
+         end.
+  clear Hb.
+  repeat match goal with
+         | H : (_ <? _) = true |- _ => apply Nat.ltb_lt in H
+         | H : (_ <=? _) = true |- _ => apply Nat.leb_le in H
+         | H : (_ =? _) = true |- _ => apply Nat.eqb_eq in H
+         | H : nodupb _ = true |- _ => apply nodupb_NoDup in H
+         | H : forallb _ _ = true |- _ => rewrite forallb_forall in H
+         end.
+  set (busy := length (prec s) + length (probe s) + length (infl s)) in *.
+  set (k := length (unused s) - (cap s - busy)) in *.
+  assert (Hrange : forall e, In e (all_entries s) -> e < 2 * cap s).
+  { intros e Hin. apply Nat.ltb_lt. auto. }
+  assert (Hcr : forall e, In e (cached s) -> e < 2 * cap s).
+  { intros e Hin. apply Hrange. unfold cached, all_entries in *. rewrite !in_app_iff in *. tauto. }
+  constructor.
+  - assumption.
+  - apply NoDup_Permutation_bis; [assumption|rewrite seq_length; lia|].
+    intros e Hin. apply in_seq. specialize (Hrange e Hin). lia.
+  - exists (firstn k (unused s)), (skipn k (unused s)).
+    split; [symmetry; apply firstn_skipn|]. split; [rewrite skipn_length; subst k; lia|]. split.
+    + intros e Hin. apply is_some_true. auto.
+    + intros e Hin. apply is_none_true. auto.
+  - intros e t Hd. destruct (Nat.lt_ge_cases e (2 * cap s)) as [Hlt|Hge].
+    + match goal with
+      | H : forall x, In x (eids s) -> match data s x with _ => _ end = true |- _ =>
+          specialize (H e (proj2 (in_eids s e) Hlt)); rewrite Hd in H; apply Nat.ltb_lt in H; exact H
+      end.
+    + rewrite (proj1 (Hsc e Hge)) in Hd. discriminate.
+  - intros e e' t Hd Hd'.
+    destruct (Nat.lt_ge_cases e (2 * cap s)) as [Hlt|Hge];
+      [|rewrite (proj1 (Hsc e Hge)) in Hd; discriminate].
+    destruct (Nat.lt_ge_cases e' (2 * cap s)) as [Hlt'|Hge'];
+      [|rewrite (proj1 (Hsc e' Hge')) in Hd'; discriminate].
+    match goal with
+    | H : forall x, In x (eids s) -> forallb _ (eids s) = true |- _ =>
+        specialize (H e (proj2 (in_eids s e) Hlt)); rewrite forallb_forall in H;
+        specialize (H e' (proj2 (in_eids s e') Hlt'))
+    end.
+    rewrite Hd, Hd' in *. cbn [is_none orb opt_nat_eqb] in *. rewrite Nat.eqb_refl in *.
+    cbn [negb orb] in *. apply Nat.eqb_eq. assumption.
+  - intros t Ht.
+    match goal with
+    | H : forall x, In x (seq 0 (cap s)) -> existsb _ _ = true |- _ =>
+        specialize (H t); rewrite in_seq in H; specialize (H (conj (Nat.le_0_l t) Ht));
+        apply existsb_exists in H; destruct H as [e [_ He]]
+    end.
+    exists e. apply opt_nat_eqb_true. exact He.
+  - intros e Hin. apply is_some_true. auto.
+  - intros e Hin. apply is_none_true. auto.
+  - intros e Hge. apply Hsc. exact Hge.
+  - intros e e' Hin Hin' Hk.
+    match goal with
+    | H : forall x, In x (cached s) -> forallb _ (cached s) = true |- _ =>
+        specialize (H e Hin); rewrite forallb_forall in H; specialize (H e' Hin')
+    end.
+    rewrite Hk, N.eqb_refl in *. cbn [negb orb] in *. apply Nat.eqb_eq. assumption.
+  - intros e. destruct (Nat.lt_ge_cases e (2 * cap s)) as [Hlt|Hge].
+    + apply Nat.eqb_eq. auto using (proj2 (in_eids s e)).
+    + rewrite (proj2 (Hsc e Hge)).
+      assert (Hni : ~ In e (pend s ++ plain s)).
+      { intros Hin.
+        match goal with
+        | H : forall x, In x (pend s ++ plain s) -> (x <? 2 * cap s) = true |- _ =>
+            specialize (H e Hin); apply Nat.ltb_lt in H; lia
+        end. }
+      assert (count_occ Nat.eq_dec (pend s) e = 0) by (apply count_occ_not_In; intros Hin; apply Hni, in_or_app; tauto).
+      assert (count_occ Nat.eq_dec (plain s) e = 0) by (apply count_occ_not_In; intros Hin; apply Hni, in_or_app; tauto).
+      lia.
+  - intros e Hr. destruct (Nat.lt_ge_cases e (2 * cap s)) as [Hlt|Hge].
+    + match goal with
+      | H : forall x, In x (eids s) -> (ref s x =? 0) || memb x (cached s) = true |- _ =>
+          specialize (H e (proj2 (in_eids s e) Hlt))
+      end.
+      destruct (Nat.eqb_spec (ref s e) 0); [lia|]. cbn [orb] in *. apply memb_true. assumption.
+    + rewrite (proj2 (Hsc e Hge)) in Hr. lia.
+  - intros e Hin.
+    match goal with
+    | H : forall x, In x (infl s) -> memb x (pend s) && negb (memb x (plain s)) = true |- _ =>
+        specialize (H e Hin); apply andb_prop in H; destruct H as [Hp Hq]
+    end.
+    split; [apply memb_true; exact Hp|].
+    intros Hin'. apply memb_true in Hin'. rewrite Hin' in Hq. discriminate.
+  - intros e Hin. apply estate_eqb_true. auto.
+  - intros e Hin Hv.
+    match goal with
+    | H : forall x, In x (infl s) -> negb (estate_eqb (est s x) Valid) = true |- _ =>
+        specialize (H e Hin)
+    end.
+    rewrite (proj2 (estate_eqb_true _ _) Hv) in *. discriminate.
+  - assumption.
+  - intros e t Hin Hd.
+    match goal with
+    | H : forall x, In x (prec s ++ probe s) -> match data s x with _ => _ end = true |- _ =>
+        specialize (H e Hin); rewrite Hd in H; apply opt_N_eqb_true in H; exact H
+    end.
+Qed.
